@@ -99,10 +99,10 @@ def gomp_unwatch_all():
 
 
 def gomp_stats(reset=False):
-    a = (ctypes.c_long * 12)()
+    a = (ctypes.c_long * 14)()
     lib().sim_gomp_stats(a)
     k = ('regions', 'switches', 'barriers', 'conflict_bytes', 'diff_bytes', 'sync_seen', 'iso_regions',
-         'watched_bytes', 'decisions_used', 'max_team', 'dyn_chunks', 'budget_hit')
+         'watched_bytes', 'decisions_used', 'max_team', 'dyn_chunks', 'budget_hit', 'overlap_bytes', 'critical_sections')
     d = dict(zip(k, a))
     if reset:
         lib().sim_gomp_reset_stats()
